@@ -351,7 +351,7 @@ func nGenerate(job *nJob) []genInfo {
 	}
 	var path string
 	if job.GenKind == "size" {
-		path, err = genSuiteFileFor(dir, &conformancev1.TestSuite{Name: "Gen", Mode: conformancev1.TestSuite_TEST_MODE_SERVER, ReliesOnMessageReceiveLimit: true,
+		path, err = genSuiteFileFor(dir, &conformancev1.TestSuite{Name: "Gen", Mode: mode, ReliesOnMessageReceiveLimit: true,
 			RelevantCodecs: []conformancev1.Codec{conformancev1.Codec_CODEC_PROTO}, TestCases: cases})
 	} else {
 		path, err = genSuiteFile(dir, "Gen", cases)
